@@ -169,7 +169,7 @@ func genC15(t *rapid.T) c15Case {
 	if rapid.IntRange(0, 30).Draw(t, "big") == 0 && thorough() {
 		nb = 125000
 	}
-	c.Seq = gen.DrawSeq(t, nb*8, []string{"uniform", "uniform", "biased", "periodic", "markov", "constant", "sparse", "runs", "explicit"})
+	c.Seq = gen.DrawSeq(t, nb*8, []string{"uniform", "uniform", "biased", "periodic", "markov", "constant", "sparse", "runs", "explicit", "bytewords", "bytewords", "transition", "longrun", "walk"})
 	return c
 }
 
